@@ -338,8 +338,8 @@ def _reflect(ctx, obj, item):
     ctx.assume(SRC(item) == src)
 
 
-lc.ITEM_HOOKS['lift'] = _lift
-lc.ITEM_HOOKS['reflect'] = _reflect
+lc.ITEM_HOOKS_BY_MODULE['tbrmatchedmarkets'] = {'lift': _lift,
+                                                'reflect': _reflect}
 
 
 def stored_bag(s, hd_obj, lheap_):
